@@ -64,10 +64,27 @@ def _protected_positions(text: str) -> set[int]:
         r"\]\[[^\]]*\]",                                      # [label]
         r"(?m)^[ >]*\[(?!\^)[^\]]+\]:.*$",                    # link reference definitions (not footnotes)
         r"\[\^[^\]]+\]",                                     # footnote labels
-        r"(?m)(?<=\n\n)(?: {4}|\t).*$",                      # indented code (only after a blank line)
         r"\\.",                                               # escapes
     ]
     pos: set[int] = set()
+    # indented code: a 4-space indented line after a blank line - unless it continues a footnote definition
+    # (whose continuation paragraphs are indented 4 as well; there code needs 8)
+    off = 0
+    in_fn = False
+    prev_blank = True
+    in_icode = False
+    for ln in text.split("\n"):
+        stripped = ln.strip()
+        if ln[:1] not in (" ", "\t", "") and stripped:
+            in_fn = bool(re.match(r"\[\^[^\]]+\]:", ln))
+        need = "        " if in_fn else "    "
+        if stripped and ln.startswith(need) and (prev_blank or in_icode):
+            in_icode = True
+            pos.update(range(off, off + len(ln)))
+        elif stripped:
+            in_icode = False
+        prev_blank = not stripped
+        off += len(ln) + 1
     for p in pats:
         for m in re.finditer(p, text, re.S if "(?ms)" not in p else 0):
             pos.update(range(m.start(), m.end()))
